@@ -94,15 +94,20 @@ Definition named_step (Sc : fschema) (n : fnode) (nm : bytes) : M fnode :=
 
 (* serialize_unit_variant on a union: a unit variant named after the null variant of the union
    (the name the deserializer reports for it) designates that variant; otherwise by type *)
-Definition unit_variant_null (Sc : fschema) (n : fnode) (variant : bytes) (by_type : M unit) : M unit :=
+Definition unit_variant_null (Sc : fschema) (n : fnode) (ename variant : bytes) (by_type : M unit) : M unit :=
   match n with
   | FUnion ks =>
-      (* ... unless the type-directed choice is an enum variant that has this symbol *)
+      (* ... unless the type-directed choice is an enum variant that has this symbol and whose name is
+         the name of the Rust enum being serialized *)
       let is_symbol_of_enum_variant :=
         match union_unnamed Sc ks KUnitVariant with
         | Some (_, k) =>
             match fnode_at Sc k with
-            | Some (FEnum _ syms) => match symbol_index syms variant with Some _ => true | None => false end
+            | Some (FEnum enm syms) =>
+                match symbol_index syms variant with
+                | Some _ => bytes_eqb (name_short enm) ename || bytes_eqb (nm_full enm) ename
+                | None => false
+                end
             | _ => false
             end
         | None => false
@@ -847,8 +852,8 @@ Fixpoint ser (n : fnode) (v : sval) {struct v} : M unit :=
         | FString | FBytes | FEnum _ _ => ser_str_leaf nm n'
         | _ => fail (Err EData)
         end)
-  | SUnitVariant _ _ variant =>
-      unit_variant_null Sc n variant
+  | SUnitVariant ename _ variant =>
+      unit_variant_null Sc n ename variant
         (via_union Sc n KUnitVariant (fun n' =>
           match n' with
           | FNull => if bytes_eqb variant NULLNAME then sret tt else fail (Err EData)
